@@ -1,5 +1,5 @@
 Require Import AT.Model.Base AT.Model.Rose AT.Model.Iter AT.Spec.IterSpec AT.Corr.Common.
-Open Scope Z_scope.
+Local Open Scope Z_scope.
 
 (** observed outputs of the five iterators: pre, post, level, groups, zigzag *)
 Definition obs06 := (list id * list id * list id * list (list id) * list (list id))%type.
